@@ -3,6 +3,7 @@
 import json, os, re, shutil, subprocess, sys, tempfile, time
 
 VERIF = os.path.dirname(os.path.dirname(os.path.abspath(__file__)))
+OUT = os.environ.get("VERIF_OUT", VERIF)  # evidence/ and replays/ go here (selftest redirects them)
 SPEC = os.path.join(VERIF, "spec")
 HARNESS = os.path.join(VERIF, "harness")
 GOENV = {"GOFLAGS": "-mod=mod", "GOPROXY": "off", "GOSUMDB": "off", "GOTOOLCHAIN": "local"}
@@ -252,7 +253,7 @@ def report(ctx, rule, rec, what, replay_obj):
     ctx.viol_counts[rule] = ctx.viol_counts.get(rule, 0) + 1
     if ctx.viol_counts[rule] > 3:
         return  # counted, but only the first three per rule get a replay file and a VIOLATION line
-    d = os.path.join(VERIF, "replays", ctx.id)
+    d = os.path.join(OUT, "replays", ctx.id)
     os.makedirs(d, exist_ok=True)
     name = "%s-seed%d-%s-%d.json" % (ctx.tier, ctx.seed, rule, len(ctx.violations))
     path = os.path.join(d, name)
@@ -276,8 +277,8 @@ def finish(ctx, rule_text, extra_cov=None):
           "violations": len(ctx.violations), "known_findings_reproduced": ctx.known}
     ev["violations"] = sum(getattr(ctx, "viol_counts", {}).values())
     if not getattr(ctx, "replaying", False):
-        os.makedirs(os.path.join(VERIF, "evidence"), exist_ok=True)
-        with open(os.path.join(VERIF, "evidence", ctx.id + ".json"), "w") as f:
+        os.makedirs(os.path.join(OUT, "evidence"), exist_ok=True)
+        with open(os.path.join(OUT, "evidence", ctx.id + ".json"), "w") as f:
             json.dump(ev, f, indent=1, sort_keys=True)
     for k in ctx.known:
         print("KNOWN-FINDING: property=%s %s (%s, %d observations)" % (ctx.id, k["what"], k["id"], k["count"]))
